@@ -42,7 +42,7 @@ pub struct PropSpec {
 pub fn spec(prop: &str) -> Option<PropSpec> {
     let s = |id, level, quick_runs, thorough_runs, nontrivial_any, nontrivial_all, rule, reach| PropSpec { id, level, quick_runs, thorough_runs, nontrivial_any, nontrivial_all, rule, reach };
     Some(match prop {
-        "C01" => s("C01", "exploration", 100000, 1500000, &["probe.child_delivered_before_parent", "probe.block_before_pack", "probe.meld_items"], &["probe.pair_compared"],
+        "C01" => s("C01", "exploration", 60000, 1500000, &["probe.child_delivered_before_parent", "probe.block_before_pack", "probe.meld_items"], &["probe.pair_compared"],
             "seeded multi-replica histories (update/commit/meld/refresh/resolve/unstage/time travel, file-by-file transport with drop/dup/reorder/partition); non-trivial = two replicas with equal item sets were compared AND items travelled (meld or out-of-causal-order file delivery); distinct = distinct op/fault sequence hash",
             &["probe.pair_compared", "probe.converge", "probe.child_delivered_before_parent", "probe.block_before_pack", "probe.reopen_compared", "probe.conflict_at_sync", "probe.array_in_conflict_at_sync"]),
         "C02" => s("C02", "exploration", 100000, 1500000, &["probe.block_held_back"], &["probe.ref_compared"],
